@@ -1,7 +1,7 @@
 //! C05 — rule materialisation computes exactly the least (stratified) model, for every strategy.
 //! E-in: bounded-exhaustive enumeration of (program, fact list) cases; every case is run through the
 //! four real strategies (twice each) and compared with R-datalog.
-use crate::infra::{guarded, hash64, Ctx, PropDef, ShardOut};
+use crate::infra::{guarded, Ctx, PropDef, ShardOut};
 use crate::reference::datalog::{self as rd, Atom, FOp, Fact, Filter, NonNumeric, Rhs, Rule, Sym, Symbols, T};
 use datalog::reasoning::Reasoner;
 use serde_json::{json, Value};
@@ -965,20 +965,36 @@ fn judge(out: &mut ShardOut, rules: &[Rule], facts: &[Fact], facts_first: bool, 
     if problems.is_empty() {
         return true;
     }
-    // determinism before verdict
+    // Re-execute. The harness side is a pure function of the case; the subject iterates hash maps with
+    // a per-process random state (the store hands its facts out in that order), so a defective strategy
+    // may give a different wrong store on the next run. A failing observation violates the property
+    // whether or not the next run repeats it; the variation is recorded as a tag (never part of a
+    // known finding's scope).
     let again = run_strategy(rules, facts, facts_first, strat, sy, dec);
-    if again != obs {
-        out.machinery_errors.push(format!("non-deterministic observation for {}", case_json(rules, facts, facts_first, strat, sy)));
-        return false;
+    let varies = again != obs;
+    if varies {
+        out.count("failing_runs_whose_result_varies_between_runs", 1);
     }
+    report(out, rules, facts, facts_first, strat, &obs, problems, varies, false, exp, feats, sy);
+    false
+}
+
+/// record the problems of one failing observation. `stable_only` (replay of a case whose result varies
+/// between runs): one failure, without the tags that describe the particular wrong store observed.
+#[allow(clippy::too_many_arguments)]
+fn report(out: &mut ShardOut, rules: &[Rule], facts: &[Fact], facts_first: bool, strat: Strat, obs: &Result<Obs, String>, problems: Vec<(&'static str, String, Vec<String>)>, varies: bool, stable_only: bool, exp: &Expect, feats: &Features, sy: &Symbols) {
     // scope: if the first run's store is wrong, say which ignored component would explain it exactly;
     // the second-run symptoms of the same execution inherit that scope
     let mut scope: Vec<String> = Vec::new();
-    if let Ok(o) = &obs {
+    if let Ok(o) = obs {
         if exp.model == o.store1 {
-            scope.push("first_run_store_correct".into());
+            if !stable_only {
+                scope.push("first_run_store_correct".into());
+            }
         } else {
-            scope.push("first_run_store_differs".into());
+            if !stable_only {
+                scope.push("first_run_store_differs".into());
+            }
             // tags: the components of every inclusion-minimal explanation (a failure is in the scope
             // of "component X ignored" iff some minimal explanation needs X)
             let expl = diagnose(rules, facts, &o.store1, feats, sy);
@@ -990,13 +1006,20 @@ fn judge(out: &mut ShardOut, rules: &[Rule], facts: &[Fact], facts_first: bool, 
             }
         }
     }
+    if varies {
+        scope.push("result_varies_between_runs".into());
+    }
     for (symptom, detail, extra_tags) in problems {
         let mut tags = structural_tags(feats, rules.len(), strat);
-        tags.extend(extra_tags);
+        if !stable_only {
+            tags.extend(extra_tags);
+        }
         tags.extend(scope.iter().cloned());
         out.fail(case_json(rules, facts, facts_first, strat, sy), symptom, detail, tags);
+        if stable_only {
+            break;
+        }
     }
-    false
 }
 
 fn problems_of(obs: &Result<Obs, String>, facts: &[Fact], exp: &Expect, sy: &Symbols) -> Vec<(&'static str, String, Vec<String>)> {
@@ -1284,7 +1307,7 @@ fn run(ctx: &Ctx) -> ShardOut {
                     out.count("cases_input_fact_also_derivable", 1);
                 }
             }
-            if out.evaluations % 9973 == 1 {
+            if derives && exp.max_stage >= 2 && out.counters.get("cases_needing_2plus_rounds").copied().unwrap_or(0) % 499 == 1 {
                 out.sample(json!({"rules": prog.rules.iter().map(|r| rd::rule_str(r, &sy)).collect::<Vec<_>>(), "facts": facts.iter().map(|f| sy.fact_str(f)).collect::<Vec<_>>(), "least_model": m.iter().map(|f| sy.fact_str(f)).collect::<Vec<_>>(), "rounds": exp.max_stage}));
             }
         }
@@ -1330,9 +1353,18 @@ fn replay(_ctx: &Ctx, case: &Value) -> ShardOut {
     }
     let feats = features(&rules);
     for s in strats {
-        out.evaluations += 1;
-        judge(&mut out, &rules, &facts, ff, s, &exp, &feats, &sy, &dec);
+        // a defective strategy may depend on the store's (random) iteration order: 8 executions; if they
+        // differ, the first failing one is reported with the run-independent tags only
+        let obs: Vec<Result<Obs, String>> = (0..8).map(|_| run_strategy(&rules, &facts, ff, s, &sy, &dec)).collect();
+        out.evaluations += obs.len() as u64;
+        let varies = obs.iter().any(|o| *o != obs[0]);
+        for o in &obs {
+            let problems = problems_of(o, &facts, &exp, &sy);
+            if !problems.is_empty() {
+                report(&mut out, &rules, &facts, ff, s, o, problems, varies, varies, &exp, &feats, &sy);
+                break;
+            }
+        }
     }
-    let _ = hash64(&0u8);
     out
 }
